@@ -371,6 +371,26 @@ def lock_proto(repo, res):
         raise AnalysisError("LOCK-PROTO: no ready-marker creation found in _compile_objects")
     compiles = [c for c in calls_in(co.node) if (call_name(c) or "").endswith(".compile")
                 and "FFI" in csl.text(c.func.value if isinstance(c.func, ast.Attribute) else c.func)]
+    if not compiles:
+        # the compiler may be run by a helper: a call of a function of this module that receives the FFI object and calls its .compile on every path to
+        # its normal return stands for the compile (the call fails when the helper does)
+        for c in calls_in(co.node):
+            g_ = m.funcs.get(call_name(c) or "")
+            if g_ is None or g_.key == co.key:
+                continue
+            ffi_args = [i_ for i_, a_ in enumerate(c.args) if "FFI" in csl.text(a_)]
+            if not ffi_args:
+                continue
+            prm = g_.params[ffi_args[0]] if ffi_args[0] < len(g_.params) else None
+            inner = [x for x in calls_in(g_.node) if (call_name(x) or "") == f"{prm}.compile"]
+            if len(inner) != 1:
+                continue
+            gcfg = CFG(g_.node)
+            inode = _node_of(gcfg, inner[0], "ffibuilder.compile in helper")
+            if gcfg.exit.id in gcfg.reachable(gcfg.entry.id, blocked={inode.id}, kinds=("n",)):
+                continue   # the helper can return normally without having compiled
+            res.functions.add(g_.key)
+            compiles.append(c)
     if len(compiles) != 1:
         raise AnalysisError(f"LOCK-PROTO: expected one ffibuilder.compile call, found {len(compiles)}")
     comp_node = _node_of(ccfg, compiles[0], "ffibuilder.compile")
